@@ -39,6 +39,15 @@ Section VP.
     repeat match goal with E : (_ =? _)%nat = true |- _ => apply Nat.eqb_eq in E end. apply find_idx_range in Hf. lia.
   Qed.
 
+  (** smooth composition (slab, fault): the composition found at position i reads entry i of both fraction lists *)
+  Theorem smooth_reads_in_bounds (comps : list N) (first second : list F) c i :
+    sig_ok (SigSmooth (length comps) (length first) (length second)) = true ->
+    find_idx comps c 0 = Some i -> (i < length first)%nat /\ (i < length second)%nat.
+  Proof.
+    cbn [sig_ok]. intros H Hf. apply andb_prop in H. destruct H as [H1 H2].
+    apply Nat.eqb_eq in H1. apply Nat.eqb_eq in H2. apply find_idx_range in Hf. lia.
+  Qed.
+
   (** uniform composition: the model walks compositions and fractions together; with equal lengths that is "find the
       position of the composition, read the fraction at that position" - the shorter list never cuts the search short *)
   Theorem fractions_lookup (comps : list N) (fracs : list F) c :
